@@ -449,7 +449,7 @@ def altmap_rt(P):
     return h
 
 
-@lemma({"k0": int, "v0": int, "k1": int, "v1": int, "n": int}, budget=60,
+@lemma({"k0": int, "v0": int, "k1": int, "v1": int, "n": int}, budget=240,
        bounds="every dictionary of 0..2 entries whose keys and values are any of 5 pooled strings (distinct keys): write then read returns an equal dictionary")
 def dictionary_rt(k0, v0, k1, v1, n):
     for x in (k0, v0, k1, v1):
